@@ -6,7 +6,7 @@ from vlib import hx, unhx, case_line, show
 THEOREMS = ["C02_tables", "C02_strings_frame", "C02_bools_frame", "C02_all_strings_frame", "C02_pinned_refuted", "C02_volume_pinned_refuted",
             "C02_container_string_key_frame", "C02_container_list_key_frame", "C02_container_bool_key_frame", "C02_frame_example",
             "C02_image_string_key_frame", "C02_image_bool_key_frame", "C02_network_string_key_frame", "C02_network_bool_key_frame",
-            "C02_network_list_key_frame", "C02_pod_string_key_frame", "C02_pod_list_key_frame", "C02_pod_frame_example", "C02_network_frame_example"]
+            "C02_network_list_key_frame", "C02_pod_string_key_frame", "C02_pod_list_key_frame", "C02_pod_frame_example", "C02_network_frame_example", "C02_priority_table"]
 
 VALUES = ["v", "a b", "x=y", "p:q", "c,d", "%n", "é", "it's", 'say "hi"', "back\\slash", "tab\there", "-dash", "$X", "a  b", "\U0001F600", "UPPER", "[br]", "#h"]
 SUBCOMMAND = {"container": ["run"], "pod": ["pod", "create"], "volume": ["volume", "create"], "network": ["network", "create"], "kube": ["kube", "play"],
@@ -253,6 +253,13 @@ def run(ctx):
         if bad:
             ctx.failures.append({"op": "convert", "type": typ, "key": key, "case_hex": cases[2 * i], "what": bad, "class": None})
     ctx.oblig("correspondence: model converters = implementation on every generated unit", mism == 0, "%d mismatches" % mism)
+    # end to end: Volume=/Network=/Image= naming another unit carry that unit's object name also when the referring file is discovered first
+    import e2e, e2e_refs
+    with e2e.Box() as box:
+        for b in e2e_refs.failures(e2e_refs.run(box, "c02")):
+            ctx.failures.append({"op": "e2e-refs", "files": {**e2e_refs.REFERRERS, **e2e_refs.REFERENCED}, "what": b, "class": None})
+        ctx.evaluations += 2
+        ctx.count("e2e_reference_orders", 2)
     ctx.samples = [{"type": w[0], "key": w[1], "lines": w[2], "documented_group": w[3]} for w in work[:8]]
     unknown = [f for f in ctx.failures if f["class"] is None]
     ctx.oblig("direct oracle: the documented option group is present with the exact value, nothing else in the command changes, positions are as documented",
